@@ -206,9 +206,11 @@ def scenarios_bin(log):
     return _SCEN
 
 
-def strace_lines(path):
+def strace_lines(path, completions=False):
     """strace -f output with `<unfinished ...>` / `<... resumed>` pairs joined (per pid) into one line at
-    the position where the call started."""
+    the position where the call started. With completions=True a line `PID completed: <joined call>` is
+    also emitted at the position where the call returned (for calls that returned on their own line: right
+    after it)."""
     lines = open(path).read().splitlines()
     out, pending = [], {}
     for ln in lines:
@@ -220,9 +222,14 @@ def strace_lines(path):
             continue
         r = re.match(r"<\.\.\. \w+ resumed>(.*)$", body)
         if r and pid in pending:
-            out[pending.pop(pid)] += r.group(1)
+            i = pending.pop(pid)
+            out[i] += r.group(1)
+            if completions:
+                out.append("%s completed: %s" % (pid, out[i].split(" ", 1)[1] if " " in out[i] else out[i]))
             continue
         out.append(ln)
+        if completions and m and "(" in body and not body.startswith(("+++", "---")):
+            out.append("%s completed: %s" % (pid, body))
     return out
 
 
@@ -332,6 +339,126 @@ def run_scenario(name, log, outdir):
         if (name == "c04_seglog_dir_fsync" and not creates_seen) or (name == "c17_rollback_prune_order" and not unlinks_seen):
             return None, tr
         return bool(problems), tr
+    if name in ("c14_fault_sweep", "c14_fault_sweep_rollback"):
+        import faultsweep
+        wd = os.path.join(BUILD, "scen", name)
+        os.makedirs(wd, exist_ok=True)
+        violated, problems = faultsweep.run(b, wd, tr, only_files=r"rollback" if name.endswith("rollback") else None)
+        return violated, tr
+    if name == "c20_lock_order":
+        st = os.path.join(outdir, name + ".strace")
+        subprocess.run(["strace", "-f", "-y", "-e", "trace=openat,flock", "-o", st, b, "c20_fresh_and_reopen", d],
+                       stdout=subprocess.PIPE, stderr=subprocess.STDOUT, text=True)
+        if not os.path.exists(st):
+            return None, tr
+        dbdir = os.path.abspath(d)
+        ev, problems, locked, nlocks = [], [], False, 0
+        for ln in strace_lines(st):
+            m = re.search(r"flock\(\d+<([^>]*)>, ([A-Z_|]+)\)\s+= (-?\d+)", ln)
+            if m and os.path.dirname(m.group(1)) == dbdir:
+                if "LOCK_EX" in m.group(2) and m.group(3) == "0":
+                    locked = True
+                    nlocks += 1
+                elif "LOCK_UN" in m.group(2):
+                    locked = False
+                ev.append("flock %s %s = %s" % (os.path.basename(m.group(1)), m.group(2), m.group(3)))
+                continue
+            m = re.search(r"openat\([^,]*, \"([^\"]*)\", ([A-Z_|]+)", ln)
+            if m and os.path.dirname(os.path.abspath(m.group(1))) == dbdir and os.path.basename(m.group(1)) != ".lock":
+                ev.append("openat %s %s%s" % (os.path.basename(m.group(1)), m.group(2), "" if locked else "   <-- lock not held"))
+                if not locked:
+                    problems.append("%s opened (%s) while the directory lock is not held" % (os.path.basename(m.group(1)), m.group(2)))
+        with open(tr, "w") as f:
+            f.write("scenario %s: create, commit, drop, reopen, commit, drop under strace (openat / flock inside the db directory)\n" % name)
+            f.write("\n".join(ev)[-6000:])
+            f.write("\nproblems: %s\n" % (problems or "none"))
+        if nlocks == 0:
+            return None, tr
+        return bool(problems), tr
+    if name == "c20_refused_open":
+        # the kernel's answer "somebody else holds the lock" is injected (strace fault injection on the
+        # first flock call: EAGAIN); everything else is the real code. (a) on an empty directory (create
+        # path), (b) on an existing database (open path): the open must be refused, nothing inside the
+        # directory may be removed, renamed, truncated or opened for writing, and the directory survives.
+        import shutil
+        problems, notes = [], []
+        observed = 0
+        for variant in ("empty", "existing"):
+            dv = d + "-" + variant
+            shutil.rmtree(dv, ignore_errors=True)
+            if variant == "empty":
+                os.makedirs(dv)
+            else:
+                subprocess.run([b, "c20_fresh_and_reopen", dv], stdout=subprocess.DEVNULL, stderr=subprocess.DEVNULL)
+            before = sorted((fn, os.path.getsize(os.path.join(dv, fn))) for fn in os.listdir(dv))
+            st = os.path.join(outdir, name + "-" + variant + ".strace")
+            p = subprocess.run(["strace", "-f", "-y", "-e", "trace=flock,openat,unlink,unlinkat,rmdir,rename,renameat,renameat2,truncate,ftruncate",
+                                "-e", "inject=flock:error=EAGAIN:when=1", "-o", st, b, "c20_try_open", dv],
+                               stdout=subprocess.PIPE, stderr=subprocess.STDOUT, text=True)
+            if "child-open: REFUSED" not in p.stdout or not os.path.exists(st):
+                notes.append("%s: open was not refused under the injected EAGAIN (%s)" % (variant, p.stdout.strip()[-120:]))
+                if "child-open: OPENED" in p.stdout:
+                    problems.append("%s: open succeeded although flock reported EAGAIN" % variant)
+                    observed += 1
+                continue
+            observed += 1
+            dbdir = os.path.abspath(dv)
+            failed = False
+            for ln in strace_lines(st):
+                if re.search(r"flock\(.*\(INJECTED\)", ln):
+                    failed = True
+                    continue
+                if not failed:
+                    continue
+                m = re.search(r"(unlink|unlinkat|rmdir|rename|renameat|renameat2|truncate|ftruncate)\(([^)]*)\)", ln)
+                if m and dbdir in m.group(2):
+                    problems.append("%s: after the refused lock: %s(%s)" % (variant, m.group(1), m.group(2)[:120]))
+                m = re.search(r"openat\([^,]*, \"([^\"]*)\", ([A-Z_|]+)", ln)
+                if m and os.path.dirname(os.path.abspath(m.group(1))) == dbdir and re.search(r"O_WRONLY|O_RDWR|O_CREAT|O_TRUNC", m.group(2)):
+                    problems.append("%s: after the refused lock: %s opened with %s" % (variant, os.path.basename(m.group(1)), m.group(2)))
+            if not os.path.isdir(dv):
+                problems.append("%s: the directory is gone after the refused open" % variant)
+            else:
+                after = sorted((fn, os.path.getsize(os.path.join(dv, fn))) for fn in os.listdir(dv) if fn != ".lock")
+                if after != [x for x in before if x[0] != ".lock"]:
+                    problems.append("%s: directory contents changed by the refused open: %s -> %s" % (variant, before, after))
+            shutil.rmtree(dv, ignore_errors=True)
+        with open(tr, "w") as f:
+            f.write("scenario %s: open with the first flock() answered EAGAIN by fault injection (empty directory, existing database)\n" % name)
+            f.write("\n".join(notes) + "\nproblems: %s\n" % (problems or "none"))
+        if not observed:
+            return None, tr
+        return bool(problems), tr
+    if name == "c20_release_order":
+        st = os.path.join(outdir, name + ".strace")
+        subprocess.run(["strace", "-f", "-y", "-e", "trace=write,flock", "-o", st, b, "c20_drop_with_inflight_io", d],
+                       stdout=subprocess.PIPE, stderr=subprocess.STDOUT, text=True)
+        if not os.path.exists(st):
+            return None, tr
+        ev = []
+        for ln in strace_lines(st):
+            if "verif-io-complete" in ln:
+                ev.append("completion")
+            elif "verif-commit-returned" in ln:
+                ev.append("commit-returned")
+            elif "verif-handle-dropped" in ln:
+                ev.append("handle-dropped")
+            elif re.search(r"flock\(\d+<[^>]*\.lock>, LOCK_UN", ln):
+                ev.append("unlock")
+        with open(tr, "w") as f:
+            f.write("scenario %s: commit fails on its first hash-table write completion, the other completions are held back; drop(handle) under strace\n" % name)
+            f.write("\n".join(ev))
+            if "unlock" not in ev or "commit-returned" not in ev:
+                f.write("\nverdict: not observed\n")
+                return None, tr
+            inflight = ev[ev.index("commit-returned"):].count("completion")
+            late = ev[ev.index("unlock"):].count("completion")
+            f.write("\ncompletions outstanding when commit returned: %d; delivered after flock(LOCK_UN): %d\n" % (inflight, late))
+            if inflight == 0:
+                f.write("verdict: not observed (nothing was in flight)\n")
+                return None, tr
+            f.write("verdict: %s\n" % ("VIOLATED: the directory lock was released while I/O was still in flight" if late else "holds"))
+        return late > 0, tr
     if name == "c04_commit_order":
         st = os.path.join(outdir, name + ".strace")
         subprocess.run(["strace", "-f", "-y", "-e", "trace=pwrite64,write,fsync,fdatasync,ftruncate", "-o", st, b, "c04_two_commits", d],
@@ -339,11 +466,19 @@ def run_scenario(name, log, outdir):
         if not os.path.exists(st):
             return None, tr
         ev = []
-        for ln in strace_lines(st):
+        for ln in strace_lines(st, completions=True):
+            done = " completed: " in ln
             m = re.search(r"(pwrite64|write|fsync|fdatasync|ftruncate)\(\d+<([^>]*)>", ln)
             if m and os.path.basename(m.group(2)) in ("ht", "wal", "meta", "ln", "bbn"):
                 c = m.group(1)
-                ev.append(("sync" if c in ("fsync", "fdatasync") else ("write" if c in ("write", "pwrite64") else c), os.path.basename(m.group(2))))
+                kind = "sync" if c in ("fsync", "fdatasync") else ("write" if c in ("write", "pwrite64") else c)
+                if done:
+                    # only the completion of a value-file fsync is an event of its own (it runs on a
+                    # background thread and has to be waited for)
+                    if kind == "sync" and os.path.basename(m.group(2)) in ("ln", "bbn") and " = 0" in ln:
+                        ev.append(("synced", os.path.basename(m.group(2))))
+                    continue
+                ev.append((kind, os.path.basename(m.group(2))))
         problems = []
         metas = [i for i, e in enumerate(ev) if e == ("write", "meta")]
         for k, mi in enumerate(metas):
@@ -362,6 +497,12 @@ def run_scenario(name, log, outdir):
             ww = [j for j, e in enumerate(pre) if e == ("write", "wal")]
             if ww and ("sync", "wal") not in pre[ww[-1]:]:
                 problems.append("commit %d: WAL not fsynced before the meta switch-over" % k)
+            # the value files' background fsyncs must have *returned* before the meta page is written
+            for vf in ("ln", "bbn"):
+                if ("sync", vf) in pre and ("synced", vf) not in pre:
+                    problems.append("commit %d: fsync(%s) was issued but had not returned when the meta page was written" % (k, vf))
+                elif k > 0 and ("sync", vf) not in pre:
+                    problems.append("commit %d: no fsync(%s) before the meta page was written" % (k, vf))
             # after the switch-over: the WAL is truncated only after fsync(ht)
             post = seg[msync + 1:]
             tr_i = next((j for j, e in enumerate(post) if e == ("ftruncate", "wal")), None)
@@ -376,6 +517,8 @@ def run_scenario(name, log, outdir):
         return bool(problems), tr
     p = subprocess.run([b, name, d], stdout=subprocess.PIPE, stderr=subprocess.STDOUT, text=True)
     open(tr, "w").write("$ %s %s %s\n%s" % (b, name, d, p.stdout[-4000:]))
+    if "unknown scenario" in p.stdout:
+        raise RuntimeError("replay scenario %s is not implemented by the scenario binary / runner (machinery bug)" % name)
     if "VIOLATED " + name in p.stdout:
         return True, tr
     if "HOLDS " + name in p.stdout:
@@ -412,6 +555,8 @@ def _run_path_queries(prop, o, res, queries, encoded, timeout_ms, log, t0):
                "path": path[-12:]}
         for ln in path[-6:]:
             log("      " + ln[:200])
+        if not q.scenario and "dropped uninspected" in q.name:
+            q.scenario = ["c14_fault_sweep", "c14_ht_write_fails", "c14_ln_write_fails"]
         if q.scenario:
             # several scenarios may be attached (different ways the same path shows up natively): the first
             # that reproduces is the replay
